@@ -1069,8 +1069,10 @@ Section Step.
              match fr_src fr1, fr_details fr1, fr_dice fr1 with
              | None, _, _ | _, [], _ | _, _, [] => SNext (mk fr1 w)
              | Some src, (b, e) :: _, _ :: _ =>
+               (* a span outside the text (left-over code of an abandoned parse branch in a body whose text was cut): nothing
+                  to rewrite — since the repair of the slice panic both cases simply go on *)
                match substring_b (bytes_of src) b e with
-               | None => SPanic "slice bounds out of range (push.def_expr)"
+               | None => SNext (mk fr1 w)
                | Some _ => SNext (mk fr1 w)
                end
              end
